@@ -27,7 +27,8 @@ from cnfgen.formula.cnf import CNF
 from cnfgen.formula.opb import OPB
 from cnfgen.formula.baseopb import BaseOPB
 
-SUITES = ("o_op", "o_gop", "o_peb", "o_stone", "o_sstone")
+SUITES = ("o_op", "o_gop", "o_peb", "o_stone", "o_sstone", "o_pymode")
+MODE_SUITE = "o_pymode"      # the same cases answered by a child interpreter running with -O / -OO
 TT_VARS = 12          # truth-table bound
 DPLL_VARS = 160       # DPLL bound
 DPLL_BUDGET = 60000   # DPLL node budget (exceeded => no verdict, never an alarm)
@@ -461,6 +462,8 @@ def meddle_with_factory_graphs(n):
 def build(suite, info):
     if suite not in SUITES:
         raise ValueError("unknown suite " + suite)
+    if suite == MODE_SUITE:
+        return common.mode_build(__name__, build, MODE_SUITE, info)
     opb = bool(info.get("opb", False))
     fc = OPB if opb else CNF
     cls_i = 1 if opb else 0
@@ -774,12 +777,16 @@ def cases(ctx):
     infos.append(("o_sstone", dict(n=0, edges=[], l=0, r=0, bedges=[], opb=True)))
 
     seen = set()
+    built = []
     for suite, info in infos:
         c = build(suite, info)
         if c.req in seen:
             continue
         seen.add(c.req)
+        built.append(c)
         yield c
+    # a second interpreter mode: a stratified sample of the cases above, generated by `python -O` (-OO)
+    yield from common.mode_cases(__name__, build, MODE_SUITE, built, common.sub_rng(seed, "C03_order-modes"), tier)
 
 
 # ------------------------------------------------------------------ failing-input search
@@ -814,6 +821,9 @@ def _first_failure(items):
 def search(ctx, case):
     """the correspondence broke on `case`: look for an input on which the PROPERTY fails, first the
     case itself, then the small instances of the same family"""
+    if case.suite == MODE_SUITE:
+        r = common.run_oracle(case)
+        return None if r is None else {"suite": case.suite, "info": case.info, "req": case.req, "failure": r}
     common.run_impl(case)
     r = common.run_oracle(case)
     if r is not None:
